@@ -440,7 +440,7 @@ class ImplicitComponent(Component):
             if not (self._has_linearize or self._has_approx):
                 return
 
-            with self._unscaled_context(outputs=[self._outputs]):
+            with self._unscaled_context(outputs=[self._outputs], residuals=[self._residuals]):
                 # Computing the approximation before the call to compute_partials allows users to
                 # override FD'd values.
                 for approximation in self._approx_schemes.values():
